@@ -158,7 +158,8 @@ def check(ctx, run):
         names = [(prog.callee_name(sp, c) or "").split("::")[-1] for c in path_calls(prog, sp, p)]
         none = val.get("total_leaks_") is False or val.get("(0 == total_leaks_)") is True or val.get("(total_leaks_ == 0)") is True
         if none:
-            ok = names == ["addNoMemoryLeaksMessage"]
+            own = [n_ for n_ in names if n_.startswith("add") and n_ != "add" or n_ in ("reachedItsCapacity", "resetWriteLimit")]
+            ok = own == ["addNoMemoryLeaksMessage"]
             run.ob("R2", "no leaks: only the no-leaks message", sp.site, ok, witness=names)
             continue
         cap = val.get("buffer_reached_its_capacity")
